@@ -449,7 +449,9 @@ def _write_combos(cl: Closure, part_nodes, buff: int, limit: int, cap: int = 300
                 if const:
                     alts.append(((text, False),) if text else ())
                 else:
-                    alts.append(tuple((c, False) for c in v))
+                    alts.append(tuple((c, False) for c in v))  # line by line
+                    if text and len(v) > 1:
+                        alts.append(((text, False),))  # in one piece (a part that is cached in memory)
                     if direct and text:
                         alts.append(((text, True),))
                 for a in alts:
